@@ -930,6 +930,81 @@ def c20_lex_frame(R):
     verify(R, "C20.lex.consumer", "nsl.parser::NslParser.__GetLocation", run, lambda m, c: rp)
 
 
+class _NumText:
+    """Opaque text of an integer literal token: `prefix` leading characters (0x) followed by digits whose numeric value is the symbolic integer `value`."""
+
+    def __init__(self, value, kind, prefix, length):
+        self.value, self.kind, self.prefix, self.sym_length = value, kind, prefix, length
+
+    def __getitem__(self, i):
+        if isinstance(i, slice) and i.start == self.prefix and i.stop is None and i.step in (None, 1):
+            return _NumText(self.value, self.kind, 0, SymInt(self.sym_length.t - self.prefix))
+        raise Unsupported(f"literal text indexed by {i!r}")
+
+    def __getattr__(self, name):
+        raise Unsupported(f"opaque literal text: .{name} is not modelled")
+
+
+def _int_contract(x=0, base=10):
+    """int(text, base) cut by its contract (builtin, trusted): the numeric value of the digits, for the base the digits are written in."""
+    if not isinstance(x, _NumText):
+        return int(x, base) if isinstance(x, str) else int(x)
+    ok = {"dec": x.prefix == 0 and base in (10, 0), "oct": x.prefix == 0 and base == 8, "hex": (x.prefix == 0 and base == 16) or (x.prefix == 2 and base in (16, 0))}[x.kind]
+    if not ok:
+        raise ValueError(f"invalid literal for int() with base {base}")
+    return x.value
+
+
+@family("C13.literal.value", props=["C13", "C01"], functions=["nsl.parser::NslParser.p_constant_integer_expression_1", "nsl.parser::NslParser.p_constant_integer_expression_2", "nsl.parser::NslParser.p_constant_integer_expression_3"],
+        assumptions=["the literal's text is opaque; int(text, base) is cut by its contract (the numeric value of the digits: an UNBOUNDED symbolic integer, negative values included for the signed decimal form)",
+                     "integer suffixes (u, l) are not modelled (int() rejects them natively)"])
+def c13_literal_value(R):
+    """An integer literal denotes its mathematical value, whatever its magnitude: the bounds check (C13) and every use of a constant (C01) see the
+    number that was written.  For every decimal, octal and hexadecimal literal text: the LiteralExpression the grammar action builds holds that number, typed int."""
+    import nsl.parser as P
+    import nsl.ast as a
+    from nsl import types as ty
+    for prod, kind, prefix, render in (("p_constant_integer_expression_1", "dec", 0, "%d"), ("p_constant_integer_expression_2", "oct", 0, "0%o"), ("p_constant_integer_expression_3", "hex", 2, "0x%X")):
+        fn = resolve("nsl.parser::NslParser." + prod)
+
+        def run(ctx, fn=fn, kind=kind, prefix=prefix):
+            v, off, ln = ctx.int("v"), ctx.int("off"), ctx.int("len")
+            ctx.assume(off >= 0)
+            ctx.assume(ln.t >= 1 + prefix)
+            if kind != "dec":
+                ctx.assume(v >= 0)
+            p = FakeP([_NumText(v, kind, prefix, ln)], [off])
+            with patched(P, len=_len2, int=_int_contract):
+                fn(new_parser(), p)
+            lit = p[0]
+            if not isinstance(lit, a.LiteralExpression):
+                return [("builds-a-literal", False)]
+            return [("value-is-the-number-written", term(lit.GetValue()) == v.t), ("typed-int", lit.GetType() == ty.Integer())]
+
+        def replay(model, clause, render=render, kind=kind):
+            v = int(model.get("v", 7))
+            if kind != "dec":
+                v = abs(v)
+            return script("""
+                import io, contextlib
+                from nsl import parser, ast
+                v = {{v}}
+                text = {{render}} % v
+                src = 'export function f() -> int { return %s; }' % text
+                with contextlib.redirect_stdout(io.StringIO()):
+                    tree = parser.NslParser().Parse(src)
+                found = []
+                def walk(n):
+                    if isinstance(n, ast.LiteralExpression): found.append(n.GetValue())
+                    n.ForEachChild(lambda c, ctx=None: walk(c))
+                walk(tree)
+                print(src, '-> literal values in the tree:', found, '; the number written:', v)
+                if found != [v]: print('REPLAY-CONFIRMED')
+                """, v=v, render=render)
+
+        verify(R, "C13.literal.value", "nsl.parser::NslParser." + prod, run, replay, label=kind)
+
+
 @family("C20.e2e", props=["C20"], functions=["nsl.parser::NslParser.Parse", "nsl.passes.UpdateLocations::UpdateLocationsVisitor.v_Generic", AST + "::Location.__str__"],
         assumptions=["BOUNDED stand-in (never counted as proved): one token sequence in six layouts (spaces, tabs, blank lines, one token per line) parsed by the real parser"])
 def c20_e2e(R):
